@@ -70,6 +70,12 @@ CHECKS = {
         essential_labels=['kind:collow', 'kind:colhigh', 'folded', 'op-after-fold', 'merge-same-kind', 'merge-wide-into-empty', 'add-beyond-edge-after-collapse'],
         assumptions=COMMON_ASSUMPTIONS + ["fold(M,N) model: folding is history-independent (DESIGN §2 C05); dyadic weights"],
     ),
+    'C10': dict(
+        level='exploration',
+        units=[U('^TestC10$', (4, 500, 40), (16, 12000, 100))],
+        essential_labels=['op:add', 'op:bad', 'op:merge', 'op:decmerge', 'op:copy', 'op:clear', 'op:reweight', 'op:encdec', 'op:changemapping', 'rejected-add', 'zero-weight-add', 'non-dyadic-phase', 'store:dense', 'store:sparse', 'store:paginated'],
+        assumptions=COMMON_ASSUMPTIONS + ["sum bound (8+2k)*2^-52*sum|v*w| plus a few subnormal ulps, k = number of reweight/rescale/decode/merge steps (DESIGN §2 C10)", "after a ChangeMapping nothing is compared with == (bin weights are no longer dyadic)", "values within [1e-50,1e50] so that unit changes keep them far inside every mapping's range"],
+    ),
     'C11': dict(
         level='exploration',
         units=[U('^TestC11$', (4, 4000), (16, 100000))],
@@ -87,6 +93,24 @@ CHECKS = {
         units=[U('^TestC13$', (4, 5000), (16, 100000))],
         essential_labels=['refused-add', 'refused-quantile', 'refused-merge', 'refused-reweight', 'refused-constructor', 'accept-at-boundary', 'state:empty', 'state:non-empty', 'variant:exact', 'variant:plain', 'mismatch:kind', 'mismatch:alpha'],
         assumptions=COMMON_ASSUMPTIONS + ["NaN weights/factors/constructor parameters are outside the property", "AddWithCount(invalid value, 0) on the exact variant may return nil or the error; only 'changes nothing' is required"],
+    ),
+    'C14': dict(
+        level='exploration',
+        units=[U('^TestC14_Sketch$', (3, 300, 40), (8, 8000, 100)), U('^TestC14_Stores$', (3, 300, 40), (8, 8000, 100))],
+        essential_labels=['level:sketch', 'level:store', 'read:copy', 'read:merge-argument', 'read:encode', 'read:toproto', 'read:encodeproto', 'read:changemapping', 'read:store-reads', 'read:bins', 'copy-then-mutations-on-both-sides', 'mutation-after-read-on-buffered-paginated', 'variant:exact'],
+        assumptions=COMMON_ASSUMPTIONS + ["aliasing between a returned protobuf message and the sketch is not asserted (the property speaks of the sketch's later answers)"],
+    ),
+    'C15': dict(
+        level='exploration',
+        units=[U('^TestC15_Stores$', (3, 800), (8, 25000)), U('^TestC15_Sketch$', (3, 600), (8, 20000))],
+        essential_labels=['level:store', 'level:sketch', 'kind:dense', 'kind:sparse', 'kind:paginated', 'kind:collow', 'kind:colhigh', 'collapsed-before-clear', 'pages-before-clear', 'h2-shifted-range', 'repeated-cycles', 'cleared-sketch-as-decode-target', 'variant:exact'],
+        assumptions=COMMON_ASSUMPTIONS + ["encoded bytes of cleared vs fresh objects are not compared (the paginated store legitimately keeps its compaction threshold); decoded content is"],
+    ),
+    'C16': dict(
+        level='exploration',
+        units=[U('^TestC16_Stores$', (3, 800), (8, 25000)), U('^TestC16_Sketch$', (3, 600), (8, 20000))],
+        essential_labels=['level:store', 'level:sketch', 'kind:dense', 'kind:sparse', 'kind:paginated', 'kind:collow', 'kind:colhigh', 'w<1', 'w>1', 'w=1', 'paginated-buffer-and-pages-at-reweight', 'collapsed-at-reweight', 'both-sides', 'zero-bucket', 'variant:exact'],
+        assumptions=COMMON_ASSUMPTIONS + ["dyadic factors only (w in {2^k, 3, 1.5, 0.75, 5}) so that scaled weights stay exact"],
     ),
     'C18': dict(
         level='exploration',
